@@ -1,4 +1,5 @@
 import BedVerif.Lemmas.FastCount
+import BedVerif.Props.C19
 /-!
 C19, large sets: the O(n log n) cardinalities the driver evaluates on sets of 10^4–10^5 intervals — total length of
 `fastCover`, and inclusion–exclusion over the cover of the concatenation — are the position-enumerating `coveredCount`,
@@ -10,5 +11,19 @@ variable {α β : Type}
 theorem C19_fastCov_eq_coveredCount (l : List (Iv α)) : fastCov l = coveredCount l := fastCov_eq_coveredCount l
 theorem C19_fastUnion_eq_unionCount (a : List (Iv α)) (b : List (Iv β)) : fastUnion a b = unionCount a b := fastUnion_eq_unionCount a b
 theorem C19_fastInter_eq_interCount (a : List (Iv α)) (b : List (Iv β)) : fastInter a b = interCount a b := fastInter_eq_interCount a b
+
+/-- on every reachable state: `cov()` of the model (the Rust's sweep with its moving interval, cached or computed, after any
+inserts and merges) is the total length of the fast cover of the SUPPLIED intervals -/
+theorem C19_cov_eq_fastCov (l : List (Iv α)) (ops : List (Op α)) (h : NonEmptyIvs l ops) :
+    (Lapper.run l ops).getCov = fastCov (recordsOf l ops) := by
+  rw [fastCov_eq_coveredCount]; exact C19_cov_supplied l ops h
+
+/-- … and `union_and_intersect` of the model, on both of its code paths, is the pair computed by inclusion–exclusion over fast
+covers of the supplied intervals -/
+theorem C19_unionAndIntersect_eq_fast (la : List (Iv α)) (oa : List (Op α)) (lb : List (Iv β)) (ob : List (Op β))
+    (ha : NonEmptyIvs la oa) (hb : NonEmptyIvs lb ob) :
+    (Lapper.run la oa).unionAndIntersect (Lapper.run lb ob) =
+      (fastUnion (recordsOf la oa) (recordsOf lb ob), fastInter (recordsOf la oa) (recordsOf lb ob)) := by
+  rw [fastUnion_eq_unionCount, fastInter_eq_interCount]; exact C19_union_intersect la oa lb ob ha hb
 
 end BV
